@@ -35,10 +35,15 @@ for d in sorted(glob.glob(os.path.join(ROOT, "seeded", "*"))):
             elif isinstance(h, dict):
                 for k, v in h.get("checks", {}).items():
                     if v.get("violation"):
-                        hs.append("earlier run of %s: VIOLATION %s" % (k, "without a failing input" if "no-failing-input-found" in v["violation"][0] else "with a failing input"))
+                        if "no-failing-input-found" in v["violation"][0]:
+                            hs.append("earlier run of %s: VIOLATION without a failing input (generator strengthened since)" % k)
                     else:
                         hs.append("earlier run of %s: MISSED (check strengthened since)" % k)
-        hist = "; ".join(hs)
+        seen = []
+        for x in hs:
+            if x not in seen:
+                seen.append(x)
+        hist = "; ".join(seen)
     clean = lambda s: (s or "").replace("|", "/").replace("\n", " ")
     out.append("| %s | %s | %s | %s%s |" % (os.path.basename(d), clean(am.get("summary"))[:400], clean(am.get("needs_to_manifest"))[:300],
                                            "; ".join(res), (" — " + hist) if hist else ""))
